@@ -148,9 +148,43 @@ int main(int argc, char **argv) {
     SetOpts o;
     o.thorough = thorough();
     o.seed = (uint64_t) env_long("VERIF_SEED", 1);
+    std::string the_case, fnname = "bidir"; unsigned long long cS = 0, cH = 0; int cs = 0, ct = 0, cspos = 1, ctpos = 0, culim = 0; double climit = 0;
     for (int i = 1; i < argc; i++) {
         std::string a = argv[i];
         if (a == "--shard" && i + 1 < argc) sscanf(argv[++i], "%d/%d", &o.shard, &o.nshards);
+        else if (a == "--case" && i + 1 < argc) the_case = argv[++i];
+        else if (a == "--S" && i + 1 < argc) cS = strtoull(argv[++i], 0, 10);
+        else if (a == "--H" && i + 1 < argc) cH = strtoull(argv[++i], 0, 10);
+        else if (a == "--s" && i + 1 < argc) cs = atoi(argv[++i]);
+        else if (a == "--t" && i + 1 < argc) ct = atoi(argv[++i]);
+        else if (a == "--spos" && i + 1 < argc) cspos = atoi(argv[++i]);
+        else if (a == "--tpos" && i + 1 < argc) ctpos = atoi(argv[++i]);
+        else if (a == "--uselimit" && i + 1 < argc) culim = atoi(argv[++i]);
+        else if (a == "--limit" && i + 1 < argc) climit = atof(argv[++i]);
+        else if (a == "--fn" && i + 1 < argc) fnname = argv[++i];
+    }
+    if (!the_case.empty()) {
+        TGraph t; if (!parse_tgraph(the_case, t)) return 3;
+        B bg(t);
+        auto bidir0 = [](auto &&... a) { return parmcb::bidirectional_signed_dijkstra(a...); };
+        Verdict vd;
+        if (fnname == "find") {
+            parmcb::ForestIndex<B::Graph> fi(bg.g);
+            std::set<std::size_t> coords; for (int e = 0; e < t.m(); e++) if (cS >> e & 1) coords.insert(fi(bg.edge_of[e]));
+            parmcb::SpVecGF2<std::size_t> support(coords);
+            std::vector<B::Vertex> verts; for (int v = 0; v < t.n; v++) verts.push_back(v);
+            auto wm = bg.weights();
+            parmcb::detail::OddCycleFinder<B::Graph, B::WeightMap> finder(bg.g, wm, fi, verts);
+            auto res = finder.find(support);
+            std::vector<uint64_t> cycles; all_simple_cycles(t, cycles);
+            double best = 1e300; for (auto c : cycles) if (__builtin_popcountll(c & cS) & 1) best = std::min(best, mask_weight(t, c));
+            if (best < 1e299 && (!std::get<2>(res) || std::get<1>(res) != best)) vd = {"phase-not-minimum", "OddCycleFinder::find does not return a minimum odd cycle (minimum " + std::to_string(best) + ")"};
+            if (best > 1e299 && std::get<2>(res)) vd = {"phase-spurious", "found an odd cycle although none exists"};
+        } else {
+            vd = check_call(t, bg, cS, cH, cH != 0, cs, cspos != 0, ct, ctpos != 0, culim != 0, climit, bidir0);
+        }
+        if (!vd.ok()) { std::cout << "REPLAY-FAIL " << fnname << " " << vd.kind << ": " << vd.detail << std::endl; return 1; }
+        std::cout << "REPLAY-OK" << std::endl; return 0;
     }
     // search-function space: smaller graphs, but every S
     o.small_n = 4; o.max_exh_n = o.thorough ? 5 : 4; o.nrandom = o.thorough ? 300 : 60; o.rnd_max_n = 7; o.rnd_max_dim = 5;
